@@ -1,5 +1,3 @@
-//go:build draft
-
 package eng
 
 import (
